@@ -88,18 +88,26 @@ impl<I: Interner> SolverStuff<UCanonicalGoal<I>, Fallible<Solution<I>>> for &dyn
         // otherwise an answer that grows with every iteration (e.g. `?0: C` with
         // `impl<T> C for V<T> where T: C` and `C` coinductive) never reaches a
         // fixed point.
-        match solution {
-            Ok(Solution::Unique(subst))
-                if truncate::needs_truncation(
-                    self.interner(),
-                    &mut InferenceTable::new(),
-                    max_size,
-                    &subst.value.subst,
-                ) =>
-            {
-                Ok(Solution::Ambig(Guidance::Unknown))
-            }
-            solution => solution,
+        let too_large = match &solution {
+            Ok(Solution::Unique(subst)) => truncate::needs_truncation(
+                self.interner(),
+                &mut InferenceTable::new(),
+                max_size,
+                &subst.value.subst,
+            ),
+            Ok(Solution::Ambig(Guidance::Definite(subst)))
+            | Ok(Solution::Ambig(Guidance::Suggested(subst))) => truncate::needs_truncation(
+                self.interner(),
+                &mut InferenceTable::new(),
+                max_size,
+                &subst.value,
+            ),
+            _ => false,
+        };
+        if too_large {
+            Ok(Solution::Ambig(Guidance::Unknown))
+        } else {
+            solution
         }
     }
 
@@ -114,10 +122,13 @@ impl<I: Interner> SolverStuff<UCanonicalGoal<I>, Fallible<Solution<I>>> for &dyn
             // Subtle: if our current answer is ambiguous, we can just stop, and
             // in fact we *must* -- otherwise, we sometimes fail to reach a
             // fixed point. See `multiple_ambiguous_cycles` for more.
-            match &current_answer {
-                Ok(s) => s.is_ambig(),
-                Err(_) => false,
-            }
+            //
+            // This only holds for an answer that carries no information: guidance
+            // computed from the previous (smaller) answer may be contradicted by
+            // the next iteration, so with guidance we go on until it is stable or
+            // gives way to `Unknown` (guidance that grows too large is dropped in
+            // `solve_iteration`).
+            matches!(current_answer, Ok(Solution::Ambig(Guidance::Unknown)))
         }
     }
 
